@@ -34,6 +34,9 @@ namespace
     int layer = -1, level = -1, layer_rank = -1, layer_size = 0;
     std::vector<long long> keys;
     std::vector<double> s0_out, s0b_out, s0c_out, s1_out, freqs;
+    // grid transfer applied directly: prolongation of the next coarser level's test vector onto this level, restriction
+    // and truncation of the next finer level's test vector onto this level (empty where there is no such neighbour level)
+    std::vector<double> prol, rest, trunc;
     Index num_global_dofs = 0;
   };
 
@@ -57,9 +60,9 @@ namespace
   struct Shared { wc::VertexDict dict; std::vector<RankOut> a, b; };
   Shared* SH = nullptr;
 
-  struct Counters { uint64_t sync0_dofs = 0, shared_dofs = 0, three_way = 0, matvec_entries = 0, sol_entries = 0, iters = 0, levels = 0; } CNT;
+  struct Counters { uint64_t sync0_dofs = 0, shared_dofs = 0, three_way = 0, matvec_entries = 0, sol_entries = 0, iters = 0, levels = 0, transfer_entries = 0; } CNT;
 
-  struct RunCfg { wc::WorldCfg w; int solver = 0; int cycle = 0; int wait_order = 0; int splitter = 0; };
+  struct RunCfg { wc::WorldCfg w; int solver = 0; int cycle = 0; int wait_order = 0; int splitter = 0; int trunc = 0; int shrink = 1; };
 
   // mass_op_: assemble the mass matrix / force functional instead of the Laplace problem (for spaces without gradients
   // across cells, e.g. discontinuous P0, whose gates have no neighbours at all)
@@ -144,9 +147,9 @@ namespace
       {
         system_levels.at(i)->assemble_coarse_muxer(domain.at(i + 1));
         if((i + 1) < domain.size_physical())
-          system_levels.at(i)->assemble_transfer(*system_levels.at(i + 1), domain.at(i), domain.at(i + 1), cubature);
+          system_levels.at(i)->assemble_transfer(*system_levels.at(i + 1), domain.at(i), domain.at(i + 1), cubature, rc.trunc != 0, rc.shrink != 0);
         else
-          system_levels.at(i)->assemble_transfer(domain.at(i), domain.at(i + 1), cubature);
+          system_levels.at(i)->assemble_transfer(domain.at(i), domain.at(i + 1), cubature, rc.trunc != 0, rc.shrink != 0);
       }
       for(Index i = 0; i < num_levels; ++i)
       {
@@ -193,6 +196,44 @@ namespace
         for(Index d = 0; d < nd; ++d) { lo.s0_out.push_back(v0(d)); lo.s0b_out.push_back(v0b(d)); lo.s0c_out.push_back(v0c(d)); lo.s1_out.push_back(v1(d)); lo.freqs.push_back(gate.get_freqs()(d)); }
         lo.num_global_dofs = gate.get_num_global_dofs();
         out.levels.push_back(std::move(lo));
+      }
+
+      // ---- grid transfer applied directly, level pair by level pair from fine to coarse (the order every rank of a layer
+      // follows): consistent (type-1) test vectors given by the DOF keys go down by restriction/truncation and up by
+      // prolongation; across a layer boundary the children send/receive through the muxer (rest_send/prol_recv) and the
+      // parents join/split. Results are compared with the one-process transfer by DOF key
+      for(Index i = 0; (i < domain.size_physical()) && ((i + 1) < domain.size_virtual()); ++i)
+      {
+        const auto& tr = system_levels.at(i)->transfer_sys;
+        LevelOut& lf = out.levels.at(i);
+        const Index nf = Index(lf.keys.size());
+        GlobalSystemVector vf(&system_levels.at(i)->gate_sys, LocalVector(nf)), vp(&system_levels.at(i)->gate_sys, LocalVector(nf));
+        for(Index d = 0; d < nf; ++d) vf.local()(d, g_val(lf.keys[d], 41));
+        vp.format();
+        if((i + 1) < domain.size_physical())
+        {
+          LevelOut& lc = out.levels.at(i + 1);
+          const Index nc = Index(lc.keys.size());
+          GlobalSystemVector vc(&system_levels.at(i + 1)->gate_sys, LocalVector(nc)), vr(&system_levels.at(i + 1)->gate_sys, LocalVector(nc));
+          for(Index d = 0; d < nc; ++d) vc.local()(d, g_val(lc.keys[d], 42));
+          vr.format();
+          tr.rest(vf, vr);
+          for(Index d = 0; d < nc; ++d) lc.rest.push_back(vr.local()(d));
+          if(rc.trunc)
+          {
+            vr.format();
+            tr.trunc(vf, vr);
+            for(Index d = 0; d < nc; ++d) lc.trunc.push_back(vr.local()(d));
+          }
+          tr.prol(vp, vc);
+        }
+        else
+        {
+          tr.rest_send(vf);
+          if(rc.trunc) tr.trunc_send(vf);
+          tr.prol_recv(vp);
+        }
+        for(Index d = 0; d < nf; ++d) lf.prol.push_back(vp.local()(d));
       }
 
       // ---- finest level: global scalars, operator application, solve
@@ -471,6 +512,36 @@ namespace
           }
         }
       }
+      // grid transfer per level against the one-process transfer between the same two refinement levels
+      {
+        std::map<int, const LevelOut*> bl;
+        for(const LevelOut& l : B.levels) bl[l.level] = &l;
+        auto cmp = [&](const LevelOut& l, const std::vector<double>& mine, const std::vector<double> LevelOut::* ref, const char* cls, const char* what)
+        {
+          if(mine.empty()) return;
+          auto it = bl.find(l.level);
+          if(it == bl.end()) sim::fail("INFRA", "the one-process run lacks a level of the distributed run");
+          const LevelOut& b = *it->second;
+          const std::vector<double>& rv = b.*ref;
+          if(rv.empty()) sim::fail("INFRA", std::string("the one-process run has no ") + what + " on level " + std::to_string(l.level));
+          std::map<long long, size_t> bi; for(size_t d = 0; d < b.keys.size(); ++d) bi[b.keys[d]] = d;
+          double sc = 1e-300; for(double x : rv) sc = std::max(sc, std::abs(x));
+          for(size_t d = 0; d < l.keys.size(); ++d)
+          {
+            auto f = bi.find(l.keys[d]);
+            if(f == bi.end()) sim::fail("DOF_KEY_UNKNOWN", "a DOF of a coarser level is unknown to the one-process run");
+            ++CNT.transfer_entries;
+            if(!(std::abs(mine[d] - rv[f->second]) <= 1e-11 * sc))
+              sim::fail(cls, std::string(what) + " onto layer " + std::to_string(l.layer) + " level " + std::to_string(l.level) + " on layer rank " + std::to_string(l.layer_rank) + " of " + std::to_string(l.layer_size) + ": " + std::to_string(mine[d]) + ", one-process value " + std::to_string(rv[f->second]));
+          }
+        };
+        for(const RankOut& r : A) for(const LevelOut& l : r.levels)
+        {
+          cmp(l, l.prol, &LevelOut::prol, "TRANSFER_PROL", "prolongation");
+          cmp(l, l.rest, &LevelOut::rest, "TRANSFER_REST", "restriction");
+          cmp(l, l.trunc, &LevelOut::trunc, "TRANSFER_TRUNC", "truncation");
+        }
+      }
       // 5,7 finest level by key against world B
       auto maxabs = [](const std::vector<double>& v) { double m = 0; for(double x : v) m = std::max(m, std::abs(x)); return m; };
       const double s_ax = maxabs(B.ax) + 1e-300, s_ax3 = maxabs(B.ax3) + 1e-300, s_diag = maxabs(B.diag), s_lump = maxabs(B.lump) + maxabs(B.diag), s_rhs = maxabs(B.rhs) + 1e-300, s_sol = maxabs(B.sol) + 1e-300;
@@ -532,8 +603,11 @@ namespace
       if(!(std::abs(A[0].h0 - B.h0) <= 1e-6 * B.h0 + 1e3 * B.noise_h0) || !(std::abs(A[0].h1 - B.h1) <= 1e-6 * B.h1 + 1e3 * B.noise_h1)) sim::fail("ERROR_NORMS", "H0/H1 errors differ from the one-process run");
     }
 
-    static void run(const RunCfg& rc)
+    static void run(const RunCfg& rc_in)
     {
+      RunCfg rc = rc_in;
+      rc.trunc = int(sim::cfg_int("transfer_trunc", 0, 1));
+      rc.shrink = int(sim::cfg_int("transfer_shrink", 0, 1));
       Shared sh;
       SH = &sh;
       sh.a.resize(size_t(rc.w.n));
